@@ -1,0 +1,37 @@
+//go:build verif
+
+// Constructor for the verification harness (/verif, properties C12 C13 C20): a MuxDB over an injected
+// key-value engine (recording / faulting engines). No logic: the same struct literals as NewMem / Open.
+// Not compiled without the build tag `verif`.
+package muxdb
+
+import "github.com/vechain/thor/v2/muxdb/engine"
+
+// NewWithEngine builds a MuxDB over eng. With options == nil the trie backend is NewMem's (no cache, partition
+// factors 1); otherwise it is Open's (real node cache, the given partition factors; nothing is persisted).
+func NewWithEngine(eng engine.Engine, options *Options) *MuxDB {
+	if options == nil {
+		return &MuxDB{
+			engine: eng,
+			trieBackend: &backend{
+				Store:            eng,
+				Cache:            &dummyCache{},
+				HistPtnFactor:    1,
+				DedupedPtnFactor: 1,
+				CachedNodeTTL:    32,
+			},
+		}
+	}
+	return &MuxDB{
+		engine: eng,
+		trieBackend: &backend{
+			Store: eng,
+			Cache: newCache(
+				options.TrieNodeCacheSizeMB,
+				uint32(options.TrieCachedNodeTTL)),
+			HistPtnFactor:    options.TrieHistPartitionFactor,
+			DedupedPtnFactor: options.TrieDedupedPartitionFactor,
+			CachedNodeTTL:    options.TrieCachedNodeTTL,
+		},
+	}
+}
